@@ -240,11 +240,10 @@ Fixpoint get_col (cols : list (name * rawcol)) (nm : name) : option rawcol :=
   | (n, c) :: r => if str_eqb nm n then Some c else get_col r nm
   end.
 
-(* DataFrameToTensorFrameConverter(...)(df); `enc c` stands for
-   self._get_mapper(col).forward(df[col]) on the column c = df[col] *)
-Definition convert_with (enc : rawcol -> option encoded) (target : option name) (cols : list (name * rawcol))
-  : option tensor_frame :=
-  let names := col_names_dict_init (col_to_stype_of cols) target in
+(* DataFrameToTensorFrameConverter.__call__(df) for a converter whose _col_names_dict currently is `names`;
+   `enc c` stands for self._get_mapper(col).forward(df[col]) on the column c = df[col] *)
+Definition convert_from (enc : rawcol -> option encoded) (target : option name) (cols : list (name * rawcol))
+  (names : sdict (list name)) : option tensor_frame :=
   xs_dict <- mapM (fun e =>
                      xs <- mapM (fun col => c <- get_col cols col ;; enc c) (snd e) ;;
                      Some (fst e, xs)) names ;;
@@ -258,6 +257,28 @@ Definition convert_with (enc : rawcol -> option encoded) (target : option name) 
        end ;;
   t <- tf_validate (MkTF feat_dict names y) ;;
   merge_feat t.
+
+(* the first call: the dict is the one __init__ computed *)
+Definition convert_with (enc : rawcol -> option encoded) (target : option name) (cols : list (name * rawcol))
+  : option tensor_frame :=
+  convert_from enc target cols (col_names_dict_init (col_to_stype_of cols) target).
+
+(* The converter is an OBJECT: the TensorFrame it returns shares the converter's _col_names_dict, and _merge_feat
+   rewrites that dict in place.  A call therefore also produces the converter's next state: the merged dict. *)
+Definition converter_call (enc : rawcol -> option encoded) (target : option name) (cols : list (name * rawcol))
+  (state : sdict (list name)) : option (tensor_frame * sdict (list name)) :=
+  t <- convert_from enc target cols state ;; Some (t, tf_names t).
+
+(* k successive calls on the same frame, starting from `state`: the frames returned, in order *)
+Fixpoint converter_calls (enc : rawcol -> option encoded) (target : option name) (cols : list (name * rawcol))
+  (k : nat) (state : sdict (list name)) : option (list tensor_frame) :=
+  match k with
+  | O => Some []
+  | S k' =>
+      r <- converter_call enc target cols state ;;
+      rest <- converter_calls enc target cols k' (snd r) ;;
+      Some (fst r :: rest)
+  end.
 
 Definition convert {L} (leqb : L -> L -> bool) (target : option name) (df : frame L) : option tensor_frame :=
   convert_with (encode_col leqb (f_index df)) target (f_cols df).
